@@ -336,6 +336,11 @@ class CallGraph:
             return None
         callees: List[FuncInfo] = []
         for v in values:
+            if (isinstance(v, ast.Call) and isinstance(v.func, ast.Attribute) and v.func.attr == "get" and not v.keywords and len(v.args) in (1, 2)
+                    and (len(v.args) == 1 or (isinstance(v.args[1], ast.Constant) and v.args[1].value is None))
+                    and isinstance(v.func.value, ast.Attribute)):
+                # `f = self.segment_map.get(kind)`: an entry of the table (or None, which is not called)
+                v = ast.Subscript(value=v.func.value, slice=v.args[0], ctx=ast.Load())
             if not (
                 isinstance(v, ast.Subscript)
                 and isinstance(v.value, ast.Attribute)
